@@ -576,12 +576,25 @@ def _prune_builds(keep=None):
             n = 0
         stale = time.time() - os.path.getmtime(d) > 6 * 3600
         if n <= 0 or stale:
-            shutil.rmtree(d, ignore_errors=True)
-            for ext in (".users", ".lock"):
+            # a directory whose lock is held is being built (or registered) by another check right now: leave it alone
+            try:
+                lk = open(d + ".lock", "a")
+            except OSError:
+                continue
+            try:
+                fcntl.flock(lk, fcntl.LOCK_EX | fcntl.LOCK_NB)
+            except OSError:
+                lk.close()
+                continue
+            try:
+                shutil.rmtree(d, ignore_errors=True)
                 try:
-                    os.remove(d + ext)
+                    os.remove(d + ".users")
                 except OSError:
                     pass
+            finally:
+                fcntl.flock(lk, fcntl.LOCK_UN)
+                lk.close()
 
 
 class Build:
